@@ -32,7 +32,8 @@ CONSTANTS
   AllowSuspend,   \* async calls may return Pending
   AllowCancel,    \* a suspended get() may be dropped
   AllowPanic,     \* manager / hooks may panic
-  ThreadLevel     \* TRUE: every segment is a scheduling unit; FALSE: a task runs until it suspends
+  ThreadLevel,    \* TRUE: every segment is a scheduling unit; FALSE: a task runs until it suspends
+  HoldAndWait     \* TRUE: a task may start a waiting get() while it holds objects itself (FALSE for liveness)
 
 NoTask == "none"
 NoObj  == 0
@@ -155,6 +156,7 @@ Tag(stage, i) == IF stage \in {"recycle", "create"} THEN stage ELSE stage \o ToS
 
 StartGet(t, m, c, r) ==
   /\ pc[t] = "idle" /\ ~poolGone /\ m \in GetModes /\ c \in CreateTO /\ r \in RecycleTO /\ Spend
+  /\ (HoldAndWait \/ m = "nb" \/ held[t] = {})
   /\ Goto(t, "g_users") /\ mode' = [mode EXCEPT ![t] = m] /\ SetRes(t, "none")
   /\ cto' = [cto EXCEPT ![t] = c] /\ rto' = [rto EXCEPT ![t] = r]
   /\ late' = [late EXCEPT ![t] = closeRet]
@@ -535,6 +537,16 @@ Next == (\E t \in Tasks : Step(t)) \/ DropPool
 
 Spec == Init /\ [][Next]_vars
 
+\* Fairness for the liveness clause of C02: every task that can take a step of its own eventually
+\* does (the code runs), suspended calls eventually complete, and whoever holds an object
+\* eventually gives it back.
+Progress(t) ==
+  \/ GUsers(t) \/ GAcq(t) \/ GWaitPoll(t) \/ GPop(t) \/ Call(t, "ok") \/ Resume(t, "ok")
+  \/ CSize(t) \/ CUnres(t) \/ UDrop(t) \/ GExit(t) \/ XUsers(t)
+  \/ RetUsers(t) \/ RetLock(t) \/ RetAdd(t) \/ TkUsers(t) \/ TkLock(t) \/ TkAdd(t)
+  \/ RsLock(t) \/ RsForget(t) \/ RsGrow(t) \/ ClLock(t) \/ RtStatus(t) \/ RtWalk(t, SeqSet(idle))
+FairSpec == Spec /\ \A t \in Tasks : WF_vars(Progress(t)) /\ \A o \in Objs : WF_vars(StartReturn(t, o))
+
 ----------------------------------------------------------------------------
 (* Bindings used by the replay / trace tools                               *)
 
@@ -610,6 +622,10 @@ Inv_C02b == (Quiescent /\ Blocked # {} /\ ~poolGone) => (idle = <<>> /\ Live >= 
 Inv_C02c == (AtRest /\ Out = {} /\ ~closed /\ ~poolGone) =>
               /\ users = 0 /\ creating = 0 /\ size = Len(idle) /\ size <= maxSize
               /\ permits >= maxSize /\ waitq = <<>> /\ handed = {}
+
+\* C02 (liveness): a get() that is waiting is always completed - with an object once capacity
+\* becomes free, or with an error (pools whose max_size was resized to 0 excepted)
+Live_C02d == \A t \in Tasks : (pc[t] = "g_wait" /\ maxSize > 0) ~> (pc[t] # "g_wait" \/ maxSize = 0)
 
 \* --- C03 / C09: fate of objects ----------------------------------------------
 BeingTaken == {obj[t] : t \in {u \in Tasks : pc[u] \in TakePcs}}
